@@ -13,6 +13,10 @@ sys.path.insert(0, REPO)
 
 def main():
     rec = json.load(open(sys.argv[1]))
+    if 'obligation' in rec and rec.get('real_input_replay'):
+        # a failed proof obligation for which the same run found a real failing input: re-execute that input
+        rr = rec['real_input_replay']
+        rec = dict(property=rec['property'], mod=rr['mod'], fn=rr['fn'], case=rr['case'])
     if 'obligation' in rec and 'case' not in rec:
         if rec.get('property') == 'C19':
             from vlib.cy import check as cy
